@@ -49,3 +49,215 @@ Theorem C01_nonvacuous :
            /\ pr_tree r = Some t /\ pr_live r = 2 /\ blocks t = 2 /\ pr_end r = Some 3%nat.
 Proof. exact parse_safe_example. Qed.
 Print Assumptions C01_nonvacuous.
+
+(** ------------------------------------------------------------------------------------------
+    The "usable result" clause: "returns either NULL or a tree that can be walked, printed and
+    deleted without error".  Three models are joined (ParseUsable*.v): the parser returns a
+    value-level tree; the printer works on value-level trees; the tree API works on the heap of
+    Heap.v.  The bridge to the heap is OUR construction [ParseUsableHeap.mat] (the parser model
+    counts blocks, it does not build heap nodes): one node block per node, one string block per
+    valuestring / key holding the zero-terminated bytes, children appended with the library's own
+    add_item_to_array.  The statement is: the tree the parser returns, seen as a heap structure, is
+    a well-formed root that the tree API can walk and delete.
+    All theorems hold for EVERY allocation schedule of the parse: a returned tree means that every
+    request of the call was granted ([C01_tree_means_all_granted]).
+    Contract clauses: [strtod_ok]; for printing also [strtod_valid] (converted doubles are IEEE
+    binary64 values; proved for the reference strtod below), [LibcStrictSpec] (the printer's libc
+    contract) and "the input bytes are bytes". *)
+From CJ Require Import ParseSpec Grammar PrintDefs PrintStrict ParseUsable ParseUsableOracle.
+From CJ Require Import Heap Forest CoreDefs SortDefs ParseUsableHeap ParseUsableWalk ParseUsableAll.
+
+(** a call that returns a tree was granted every allocation request it made; its result is the
+    failure-free run's *)
+Theorem C01_tree_means_all_granted : forall strtod oracle content len rnt r t,
+  cJSON_ParseWithLengthOpts strtod oracle content len rnt = Ok r -> pr_tree r = Some t ->
+  (forall k, (k < pr_requests r)%nat -> oracle k = false) /\
+  cJSON_ParseWithLengthOpts strtod never_fails content len rnt = Ok r.
+Proof. exact tree_means_all_granted. Qed.
+Print Assumptions C01_tree_means_all_granted.
+
+(** SHAPE.  Every tree the entry point returns is a well-formed JSON tree ([ParseUsable.shape],
+    an inductive definition with one constructor per JSON kind): type word exactly one of
+    NULL/False/True/Number/String/Array/Object (no flag bit); Number: valueint = sat_int valuedouble,
+    no valuestring; String: a zero-free valuestring; every child of an Object has a zero-free key,
+    every child of an Array and the root have none; scalars have no children; containers nest at
+    most CJSON_NESTING_LIMIT deep.  [B] / [D] is whatever is known of the input bytes / of strtod's
+    results (they are inherited by the string bytes / number values of the tree). *)
+Theorem C01_result_usable_shape : forall strtod (B : Z -> Prop) (D : dbl -> Prop),
+  (forall c, is_byte c = true -> B c) -> (forall s d k, strtod s = Some (d, k) -> D d) ->
+  strtod_ok strtod ->
+  forall oracle content len rnt r t, (len <= length content)%nat -> Forall B (firstn len content) ->
+    cJSON_ParseWithLengthOpts strtod oracle content len rnt = Ok r -> pr_tree r = Some t ->
+    shape B D false nesting_limit t.
+Proof. exact parsed_tree_shape_any_oracle. Qed.
+Print Assumptions C01_result_usable_shape.
+
+(** the same for every tree the list-level specification accepts (ParseRefine: the entry points
+    compute exactly [text_l] on the declared bytes) *)
+Theorem C01_result_usable_shape_spec : forall strtod (B : Z -> Prop) (D : dbl -> Prop),
+  (forall c, is_byte c = true -> B c) -> (forall s d k, strtod s = Some (d, k) -> D d) ->
+  forall l rnt t rest, Forall B l -> text_l strtod l rnt = Some (t, rest) -> shape B D false nesting_limit t.
+Proof. exact text_l_shape. Qed.
+Print Assumptions C01_result_usable_shape_spec.
+
+(** what the shape says field by field *)
+Theorem C01_result_usable_shape_fields : forall B D keyed d n, shape B D keyed d n ->
+  let ty := n_ty n in
+  (ty = c_cJSON_NULL \/ ty = c_cJSON_False \/ ty = c_cJSON_True \/ ty = c_cJSON_Number \/
+   ty = c_cJSON_String \/ ty = c_cJSON_Array \/ ty = c_cJSON_Object) /\
+  tymask ty = ty /\ Z.land ty c_cJSON_IsReference = 0 /\ Z.land ty c_cJSON_StringIsConst = 0 /\
+  (ty = c_cJSON_Number -> n_vint n = sat_int (n_vdbl n) /\ n_vstr n = None) /\
+  (ty = c_cJSON_String -> exists s, n_vstr n = Some s /\ zero_free s) /\
+  (ty <> c_cJSON_String -> n_vstr n = None) /\
+  (ty <> c_cJSON_Array -> ty <> c_cJSON_Object -> n_children n = []) /\
+  (ty = c_cJSON_Object -> Forall (fun c => exists k, n_key c = Some k /\ zero_free k) (n_children n)) /\
+  (ty = c_cJSON_Array -> Forall (fun c => n_key c = None) (n_children n)) /\
+  (keyed = false -> n_key n = None).
+Proof. exact shape_fields. Qed.
+Print Assumptions C01_result_usable_shape_fields.
+
+(** valueint is a C int: the conversion saturates *)
+Theorem C01_sat_int_in_range : forall d, valid_dbl d = true -> c_INT_MIN <= sat_int d <= c_INT_MAX.
+Proof. exact sat_int_in_range. Qed.
+Print Assumptions C01_sat_int_in_range.
+
+(** PRINTS.  Under the printer's libc contract and [strtod_valid], every returned tree satisfies
+    the hypotheses of the printer theorems (C05 [printable], C09 [fields_ok], depth <= limit);
+    [render] produces a text in both formats, it is an RFC 8259 text, and cJSON_Print
+    ([print … true]) / cJSON_PrintUnformatted ([print … false]) / cJSON_PrintBuffered end with
+    outcome [Ok] under every allocation schedule, return nothing but that text, and return it when
+    no allocation fails. *)
+Theorem C01_result_usable_prints :
+  forall strtod fmt_d fmt_g15 fmt_g17 sscanf_lg,
+  LibcStrictSpec fmt_d fmt_g15 fmt_g17 -> strtod_ok strtod -> strtod_valid strtod ->
+  forall parse_oracle content len rnt r t,
+    (len <= length content)%nat -> Forall (fun c => is_byte c = true) (firstn len content) ->
+    cJSON_ParseWithLengthOpts strtod parse_oracle content len rnt = Ok r -> pr_tree r = Some t ->
+    printable t = true /\ fields_ok t = true /\ (cdepth t <= nesting_limit)%nat /\
+    forall fmt, exists txt,
+      render fmt_d fmt_g15 fmt_g17 sscanf_lg fmt 0 t = Some txt /\
+      RFC_text txt (val_of fmt_d fmt_g15 fmt_g17 sscanf_lg t) /\
+      (forall oracle junk hr, exists pr, print fmt_d fmt_g15 fmt_g17 sscanf_lg oracle junk t fmt hr = Ok pr /\
+         (forall block, prr_block pr = Some block -> block = txt ++ [0]) /\
+         ((forall i, oracle i = false) -> zlen txt + 2 <= c_INT_MAX -> prr_block pr = Some (txt ++ [0]))) /\
+      (forall oracle junk prebuffer hr, 0 <= prebuffer ->
+         exists pr, cJSON_PrintBuffered fmt_d fmt_g15 fmt_g17 sscanf_lg oracle junk t prebuffer fmt hr = Ok pr /\
+         (forall block, prr_block pr = Some block -> exists rest, block = txt ++ 0 :: rest) /\
+         ((forall i, oracle i = false) -> zlen txt + 2 <= c_INT_MAX ->
+            exists rest, prr_block pr = Some (txt ++ 0 :: rest))).
+Proof. exact parsed_any_oracle_prints. Qed.
+Print Assumptions C01_result_usable_prints.
+
+(** the validity clause of the strtod contract holds for the reference strtod (RoundTripRefValid.v,
+    through Flocq: this one theorem depends on the standard axioms of Coq's Reals library) *)
+Theorem C01_strtod_ref_valid : strtod_valid strtod_ref.
+Proof. exact strtod_ref_valid. Qed.
+Print Assumptions C01_strtod_ref_valid.
+
+From stdpp Require Import gmap.
+Local Open Scope Z_scope.
+
+(** DELETES.  The returned tree [t], materialised ([mat]) in ANY heap [h] that encodes a forest [F]
+    without leak ([WF] + [NoLeak], the invariant of every API history, C06/C07): the run has no
+    error outcome and returns the fresh identity [h_next h]; the heap [h'] it leaves IS the
+    canonical encoding of [F] plus the tree labelled with consecutive identities ([Forest.WF]:
+    link map = [heap_lnk_of], data map = [heap_dat_of] — so every C06 statement applies to it) and
+    nothing else is live library memory; the image owns [blocks t] pairwise distinct library blocks,
+    which is the parser's own ledger [pr_live]; cJSON_Delete of the root returns without error and
+    leaves a heap [h''] that encodes [F] again with the set of live library blocks back at its
+    value before. *)
+Theorem C01_result_usable_deletes : forall strtod oracle content len rnt r t,
+  strtod_ok strtod -> (len <= length content)%nat ->
+  cJSON_ParseWithLengthOpts strtod oracle content len rnt = Ok r -> pr_tree r = Some t ->
+  (forall h F, WF h F -> NoLeak h F ->
+   exists h' h'',
+     mat t h = Ret (Some (h_next h), h') /\
+     WF h' (F ++ [forest_of t (h_next h)]) /\ NoLeak h' (F ++ [forest_of t (h_next h)]) /\
+     lib_live h' = lib_live h ∪ list_to_set (owned [forest_of t (h_next h)]) /\
+     NoDup (owned [forest_of t (h_next h)]) /\
+     Z.of_nat (length (owned [forest_of t (h_next h)])) = blocks t /\
+     cJSON_Delete (Some (h_next h)) h' = Ret (tt, h'') /\
+     WF h'' F /\ NoLeak h'' F /\ lib_live h'' = lib_live h)
+  /\ pr_live r = blocks t.
+Proof. exact parsed_any_oracle_deletes. Qed.
+Print Assumptions C01_result_usable_deletes.
+
+(** WALKS.  An independently written traversal of the heap ([SortDefs.read_node]: loads the fields,
+    reads both strings as C strings up to their terminator, follows child and then the next chain
+    to NULL, recursively; every load checks liveness and block kind) run on the image of the
+    returned tree, built in any well-formed heap, returns without error, leaves the heap unchanged
+    and reads back exactly [t]: the image represents the parser's result field by field, string by
+    string, child by child in order. *)
+Theorem C01_result_usable_walks : forall strtod oracle content len rnt r t,
+  strtod_ok strtod -> (len <= length content)%nat ->
+  cJSON_ParseWithLengthOpts strtod oracle content len rnt = Ok r -> pr_tree r = Some t ->
+  forall h F, WF h F ->
+    exists h', mat t h = Ret (Some (h_next h), h') /\
+      forall fuel, (node_size t <= fuel)%nat -> read_node fuel (Some (h_next h)) h' = Ret (t, h').
+Proof. exact parsed_any_oracle_walks. Qed.
+Print Assumptions C01_result_usable_walks.
+
+(** what the canonical encoding says about the links of the image — the root has no sibling links;
+    the k-th child of a node with children list [ks] has next = the (k+1)-th (NULL at the end),
+    prev = the (k-1)-th, the head's prev being the last ([Forest.link_at]); [child] is the head of
+    the children list, NULL for a leaf ([Forest.mk_dat]) *)
+Theorem C01_result_usable_links : forall t h F h',
+  plain t = true -> WF h F -> mat t h = Ret (Some (h_next h), h') ->
+  let tr := forest_of t (h_next h) in
+  h_lnk h' !! h_next h = Some (None, None) /\
+  (forall i d (ks : list positive), (i, d, ks) ∈ flat [tr] ->
+     h_dat h' !! i = Some (mk_dat d ks) /\
+     forall k c, ks !! k = Some c -> h_lnk h' !! c = Some (link_at ks k)).
+Proof. exact mat_links. Qed.
+Print Assumptions C01_result_usable_links.
+
+(** ALL ENTRY POINTS.  [usable t] = shape + prints + walks + deletes as above.  The zero-terminated
+    variants are the length-based one on strlen + 1 declared bytes; cJSON_Parse and
+    cJSON_ParseWithLength are the rnt = false instances. *)
+Theorem C01_result_usable_length_variants :
+  forall strtod fmt_d fmt_g15 fmt_g17 sscanf_lg,
+  LibcStrictSpec fmt_d fmt_g15 fmt_g17 -> strtod_ok strtod -> strtod_valid strtod ->
+  forall oracle content len rnt r t,
+    (len <= length content)%nat -> Forall Bbyte (firstn len content) ->
+    cJSON_ParseWithLengthOpts strtod oracle content len rnt = Ok r -> pr_tree r = Some t ->
+    usable fmt_d fmt_g15 fmt_g17 sscanf_lg t /\ pr_live r = blocks t.
+Proof. exact parse_length_result_usable. Qed.
+Print Assumptions C01_result_usable_length_variants.
+
+Theorem C01_result_usable_string_variants :
+  forall strtod fmt_d fmt_g15 fmt_g17 sscanf_lg,
+  LibcStrictSpec fmt_d fmt_g15 fmt_g17 -> strtod_ok strtod -> strtod_valid strtod ->
+  forall oracle content rnt r t,
+    Forall Bbyte content ->
+    cJSON_ParseWithOpts strtod oracle content rnt = Ok r -> pr_tree r = Some t ->
+    usable fmt_d fmt_g15 fmt_g17 sscanf_lg t /\ pr_live r = blocks t.
+Proof. exact parse_string_result_usable. Qed.
+Print Assumptions C01_result_usable_string_variants.
+
+(** non-vacuity: {"a":[1,2.5,"x\né",{"k":null,"e":[]}],"b":true, "c":-3e2} with the reference
+    libc — accepted, 16 blocks; rendered in both formats; materialised from the empty heap as root 1
+    with the 16 live blocks 1..16; after cJSON_Delete no live library block, no node, no string;
+    the walk of the image reads back the tree *)
+Theorem C01_result_usable_nonvacuous :
+  Forall Bbyte ex_text /\
+  text_l strtod_ref ex_text false = Some (ex_tree, []) /\
+  (exists r, cJSON_ParseWithLengthOpts strtod_ref never_fails ex_text (length ex_text) false = Ok r /\
+             pr_tree r = Some ex_tree /\ pr_live r = 16) /\
+  blocks ex_tree = 16 /\
+  render LibcPrint.fmt_d PrintStrictRef.sg_fmt_g15 PrintStrictRef.sg_fmt_g17 LibcPrint.sscanf_lg false 0 ex_tree
+    = Some ex_unformatted /\
+  (exists txt, render LibcPrint.fmt_d PrintStrictRef.sg_fmt_g15 PrintStrictRef.sg_fmt_g17 LibcPrint.sscanf_lg true 0 ex_tree
+               = Some txt /\ length txt = 83%nat) /\
+  (exists live, ex_run = Some (Some 1%positive, live, 17%positive, [], [], []) /\ length live = 16%nat) /\
+  (exists h', mat ex_tree empty_heap = Ret (Some 1%positive, h') /\
+              exists h'', read_node 20 (Some 1%positive) h' = Ret (ex_tree, h'')).
+Proof. exact usable_example. Qed.
+Print Assumptions C01_result_usable_nonvacuous.
+
+(** … and the hypotheses of the general theorems hold for it *)
+Theorem C01_result_usable_nonvacuous_general :
+  shape Bbyte Dvalid false nesting_limit ex_tree /\
+  prints_ok LibcPrint.fmt_d PrintStrictRef.sg_fmt_g15 PrintStrictRef.sg_fmt_g17 LibcPrint.sscanf_lg ex_tree /\
+  heap_usable ex_tree /\ walkable ex_tree.
+Proof. exact usable_example_general. Qed.
+Print Assumptions C01_result_usable_nonvacuous_general.
